@@ -377,7 +377,7 @@ theorem applyTopo_cells (cfg : Cfg) (s : RState) (ls : List (List Nat)) (valence
     (hok : ListsOk ls valence valEnc hEnc off (2 * s.faces.length))
     (hspan : ls.length ≤ s.nC - s.cells.length) (hfirst : s.cells.length < 2 ^ 64)
     (htet : s.topo = topoTypeTetrahedral → valence = 4) (hhex : s.topo = topoTypeHexahedral → valence = 6)
-    (hadd : addCells cfg s.faces ls = .ok (some ls)) :
+    (hadd : addCells cfg s.edges s.faces ls = .ok (some ls)) :
     applyTopo cfg s (topoPayload s.cells.length topoEntityCell valence valEnc hEnc off ls) =
       .ok { s with cells := s.cells ++ ls, stor := growStor s.stor propertyEntityCell ls.length } := by
   obtain ⟨hb, _, h1, h2, h3⟩ := topo_front s.cells.length topoEntityCell (by decide) hfirst ls valence valEnc hEnc off _ hok
